@@ -1,7 +1,7 @@
 #!/bin/sh
 # round 5: /tmp/seed5/Cxx/_seed/I is stored as Cxx-I (one id given as $1, or all)
 mkdir -p /tmp/intake_logs
-for d in /tmp/seed5/${1:-C*}/_seed/[I]; do
+for d in /tmp/seed5/${1:-C*}/_seed/[I] /tmp/seed6/${1:-C*}/_seed/[J]; do
   pid=$(echo $d | cut -d/ -f4); x=$(basename $d)
   name="$pid-$x"
   [ -f $d/notes.md ] && [ -f $d/patch.diff ] && [ -f $d/demo.py ] || continue
